@@ -42,6 +42,23 @@ pub fn payload(r: &mut Rng, class: u64) -> Vec<u8> {
             let b = r.next() as u8;
             (0..n).map(|i| if i % 97 == 0 { b.wrapping_add(i as u8) } else { b }).collect()
         }
+        6 => {
+            // incompressible, around the block sizes of the compression libraries' stream buffers
+            let n = *r.pick(&[32 * 1024 - 1, 32 * 1024 + 1, 40_000, 64 * 1024 + 1, 128 * 1024 - 1, 128 * 1024, 128 * 1024 + 1, 200 * 1024]);
+            r.bytes(n)
+        }
+        7 => {
+            // incompressible, up to the frame limit
+            let n = (1 << 20) - r.below(64) as usize;
+            r.bytes(n)
+        }
+        8 => {
+            // noise followed by a long run, then noise again
+            let mut v = r.bytes(70_000);
+            v.extend(std::iter::repeat(r.next() as u8).take(150_000));
+            v.extend(r.bytes(70_000));
+            v
+        }
         _ => {
             let n = r.below(300) as usize;
             r.bytes(n)
@@ -190,7 +207,7 @@ pub fn main(args: &[String]) {
         for name in COMPS.iter().filter(|n| **n != "none") {
             for level in levels_of(name) {
                 if k % 16 == shard {
-                    for class in [0u64, 1, 3, 4] {
+                    for class in [0u64, 1, 3, 4, 6] {
                         let data = payload(&mut r, class);
                         comp_case(name, &level, class, &data, &mut out);
                     }
@@ -203,7 +220,7 @@ pub fn main(args: &[String]) {
                 0..=4 => {
                     let name = *r.pick(&COMPS[1..]);
                     let level = level_for(name, &mut r);
-                    let class = if i % 50 == 3 { 5 } else { r.below(5) };
+                    let class = if i % 50 == 3 { 5 } else if i % 50 == 7 { 7 } else if i % 50 == 11 { 8 } else if i % 10 == 1 { 6 } else { r.below(5) };
                     let data = payload(&mut r, class);
                     comp_case(name, &level, class, &data, &mut out);
                 }
